@@ -33,6 +33,7 @@ from ural.quote import (
 from ural.patterns import PROTOCOL_RE, CONTROL_CHARS_RE
 from ural.facebook import is_facebook_url, parse_facebook_url
 from ural.youtube import is_youtube_url, normalize_youtube_url
+from ural.canonicalize_url import canonicalize_url
 
 IRRELEVANT_QUERY_PATTERN = r"^(?:__twitter_impression|_guc_consent_skip|guccounter|fb_action_types|(?:php|asp|j)?sessionid|fb_action_ids|fb_source|echobox|feature|recruiter|_unique_id|twclid|mibextid|campaignid|adgroupid|cn-reloaded|ao_noptimize|mkt_tok|fbclid|igshid|refid|gclid|mc_cid|mc_eid|__tn__|_ft_|dclid|wpamp|fref|usqp|ncid|mtm_.+|utm_.+%s|s?een|cftoken|cfid|sid|xt(?:loc|ref|cr|np|or|s)|at_.+|_ga)$"
 
@@ -261,7 +262,14 @@ def normalize_url(
         url = "https://" + url
 
     # Platform-specific magic
+    # NOTE: the platform parsers must see resolved dot segments and unescaped
+    # ids, else canonicalizing a url beforehand would change what they find
     if platform_aware:
+        try:
+            url = canonicalize_url(url)
+        except ValueError:
+            return original_url_arg
+
         if is_facebook_url(url):
             p = parse_facebook_url(url)
 
